@@ -17,7 +17,7 @@ for f in sorted(os.listdir(src)):
 meta = dict(breaks_property=prop, needs_to_manifest=needs,
             written_by="independent sub-agent given only the property text and a scratch worktree",
             confirmed=dict(test_suite_with_change="353 passed", demo_with_change="exit 1", demo_without_change="exit 0",
-                           how="tools/eval_seed.sh: pytest + demo in the scratch worktree, with and without the patch"),
+                           how=os.environ.get("SEED_HOW", "tools/confirm_seed.sh: pytest + demo in the scratch worktree, with and without the patch; checks run by tools/eval_seed_pp.sh with PYTHONPATH=<worktree> (tawazi imported from the patched worktree, /repo untouched)")),
             checks_run_against_repo_with_patch=checks, caught_by=[c for c in caught.split(",") if c],
             apply="git -C /repo apply seeded/%s/patch.diff ; <run checks> ; git -C /repo checkout -- ." % name)
 json.dump(meta, open(os.path.join(dst, "meta.json"), "w"), indent=1)
